@@ -217,6 +217,50 @@ def gen(src, fn):
     return out
 
 
+MIRROR = {ast.Lt: ast.Gt, ast.Gt: ast.Lt, ast.LtE: ast.GtE, ast.GtE: ast.LtE, ast.Eq: ast.Eq, ast.NotEq: ast.NotEq}
+
+
+def gen_twins(src, fn):
+    """behaviour-preserving rewrites: the check must stay silent on every one of them"""
+    out = []
+    params = {a.arg for a in ast.walk(fn.args) if isinstance(a, ast.arg)}
+    declared = {n for x in ast.walk(fn) if isinstance(x, (ast.Global, ast.Nonlocal)) for n in x.names}
+    nested_params = {a.arg for x in ast.walk(fn) if x is not fn and isinstance(x, (ast.FunctionDef, ast.AsyncFunctionDef, ast.Lambda)) for a in ast.walk(x.args) if isinstance(a, ast.arg)}
+    stores = {}
+    own_nested = {x.name for x in ast.walk(fn) if x is not fn and isinstance(x, (ast.FunctionDef, ast.AsyncFunctionDef, ast.ClassDef))}
+    for n in ast.walk(fn):
+        if isinstance(n, ast.Name) and isinstance(n.ctx, ast.Store):
+            stores.setdefault(n.id, 0)
+    # is fn itself nested?  then names may be free variables of an outer scope: only rename names stored here
+    for name in sorted(stores):
+        if name in params or name in declared or name in nested_params or name in own_nested or name == "_":
+            continue
+        occ = [n for n in ast.walk(fn) if isinstance(n, ast.Name) and n.id == name]
+        edits = [(src.off(n.lineno, n.col_offset), src.off(n.end_lineno, n.end_col_offset), (name + "_rn").encode()) for n in occ]
+        out.append((edits, "RENAME", f"L{occ[0].lineno} rename local `{name}` -> `{name}_rn` ({len(occ)} occurrences)"))
+    for n in ast.walk(fn):
+        if isinstance(n, ast.Compare) and len(n.ops) == 1 and type(n.ops[0]) in MIRROR and not any(isinstance(a, ast.JoinedStr) for a in ast.walk(n)):
+            m = ast.Compare(left=n.comparators[0], ops=[MIRROR[type(n.ops[0])]()], comparators=[n.left])
+            s, e = src.span(n)
+            out.append(([(s, e, ("(" + ast.unparse(m) + ")").encode())], "MIRROR", f"L{n.lineno} `{ast.unparse(n)[:70]}` -> `{ast.unparse(m)[:70]}`"))
+        if isinstance(n, ast.If) and n.orelse and not (len(n.orelse) == 1 and isinstance(n.orelse[0], ast.If)) and n.body[0].lineno > n.lineno:
+            # if c: A else: B  ->  if not c: B else: A   (re-rendered with ast.unparse at the statement's indentation)
+            t = n.test.operand if isinstance(n.test, ast.UnaryOp) and isinstance(n.test.op, ast.Not) else ast.UnaryOp(op=ast.Not(), operand=n.test)
+            m = ast.If(test=t, body=n.orelse, orelse=n.body)
+            txt = ast.unparse(m)
+            ind = " " * n.col_offset
+            txt = txt.replace("\n", "\n" + ind)
+            s, e = src.span(n)
+            out.append(([(s, e, txt.encode())], "FLIP", f"L{n.lineno} flip arms of `if {ast.unparse(n.test)[:60]}`"))
+    first = fn.body[0]
+    if isinstance(first, ast.Expr) and isinstance(first.value, ast.Constant) and len(fn.body) > 1:
+        first = fn.body[1]
+    if first.lineno > fn.lineno:
+        s = src.off(first.lineno, first.col_offset)
+        out.append(([(s, s, b"lbsa_probe = None\n" + b" " * first.col_offset)], "PAD", f"L{first.lineno} insert an unrelated statement first"))
+    return out
+
+
 def find_function(tree, qual_tail):
     """qual_tail: list of names from module level, `<locals>` skipped"""
     cur = [tree]
@@ -259,7 +303,12 @@ def run_one(job):
         overlay(REPO, scratch, [rel])
         p = os.path.join(scratch, rel)
         raw = open(p, "rb").read()
-        new = raw[:s] + txt + raw[e:]
+        if isinstance(s, list):
+            new = raw
+            for a, b, t in sorted(s, reverse=True):
+                new = new[:a] + t + new[b:]
+        else:
+            new = raw[:s] + txt + raw[e:]
         try:
             ast.parse(new)
         except SyntaxError:
@@ -285,6 +334,7 @@ def main():
     ap.add_argument("--out", default=None)
     ap.add_argument("--max", type=int, default=0)
     ap.add_argument("--show-killed", action="store_true")
+    ap.add_argument("--twins", action="store_true", help="generate behaviour-preserving rewrites instead; every VIOLATION is a false alarm of the check")
     ap.add_argument("--emit", action="append", default=[], help="regex on 'L<line> <desc>': append matching KILLED mutants to variants/<pid>.json as break variants")
     ap.add_argument("--emit-twin", action="append", default=[], help="same, but SURVIVING mutants recorded as twins (expect silent)")
     a = ap.parse_args()
@@ -307,6 +357,12 @@ def main():
         if fn is None:
             print("?? cannot find", fq)
             continue
+        if a.twins:
+            for edits, op, desc in gen_twins(src, fn):
+                if ops and op not in ops:
+                    continue
+                jobs.append((pid, rel, edits, None, None, op, desc, fq))
+            continue
         for s, e, txt, op, desc in gen(src, fn):
             if ops and op not in ops:
                 continue
@@ -314,7 +370,7 @@ def main():
     # de-duplicate (nested functions are visited from their parents too)
     seen, uniq = set(), []
     for j in jobs:
-        k = (j[1], j[2], j[3], j[4])
+        k = (j[1], json.dumps(j[2], default=repr) if isinstance(j[2], list) else j[2], j[3], j[4])
         if k not in seen:
             seen.add(k)
             uniq.append(j)
@@ -330,11 +386,15 @@ def main():
     print(stats)
     cur = None
     for job, tag, first in res:
-        if tag == "silent" or (a.show_killed and tag != "syntax") or tag == "ANALYSIS-ERROR":
+        if a.twins:
+            show = tag in ("VIOLATION", "ANALYSIS-ERROR")
+        else:
+            show = tag == "silent" or (a.show_killed and tag != "syntax") or tag == "ANALYSIS-ERROR"
+        if show:
             if job[7] != cur:
                 cur = job[7]
                 print(f"== {cur}  ({job[1]})")
-            mark = {"silent": "SURV", "VIOLATION": "kill", "ANALYSIS-ERROR": "AERR"}[tag]
+            mark = {"silent": "SURV", "VIOLATION": "FALSE-ALARM" if a.twins else "kill", "ANALYSIS-ERROR": "AERR"}[tag]
             print(f"  {mark} {job[5]:5s} {job[6]}" + (f"   [{first[:100]}]" if first and tag != "silent" else ""))
     if a.emit or a.emit_twin:
         vp = f"/verif/variants/{pid}.json"
